@@ -11,7 +11,7 @@ for d in sorted(glob.glob("/verif/seeded/*/")):
     mp = os.path.join(d, "meta.json")
     meta = json.load(open(mp))
     if meta.get("obsolete_after_repair") or str(meta.get("status", "")).startswith("obsolete"):
-        print(sid, "obsolete after repair", meta["obsolete_after_repair"].get("repo_commit"))
+        print(sid, "obsolete after a repair")
         continue
     checks = sorted({k.split(":")[0] for k in meta.get("detected_by", {})} | {meta["breaks_property"]})
     for cid in checks:
